@@ -62,14 +62,15 @@ func checkC05(c *Ctx, r *Report) {
 		}
 		e := NewEffects(p, asmW)
 		e.Run()
-		for _, n := range []string{"sm4.NewCipher", "sm4.newCipher", "sm4.newCipherGeneric", "sm4.expandKey"} {
+		// the summary of NewCipher is interprocedural: it includes what every callee (constructors, key schedules) does with the key
+		for _, n := range []string{"sm4.NewCipher"} {
 			fn := p.Func(n)
 			if fn == nil || len(fn.Blocks) == 0 {
 				continue
 			}
 			sum := e.sum[fn]
 			for i, prm := range fn.Params {
-				if prm.Name() != "key" && prm.Name() != "mk" {
+				if _, isSlice := prm.Type().Underlying().(*types.Slice); !isSlice {
 					continue
 				}
 				var sites []string
